@@ -51,7 +51,7 @@ func genC10(t *rapid.T) C10Sc {
 		seen[string(s.IP)] = true
 		sc.IPs = append(sc.IPs, s.IP)
 	}
-	n := rapid.IntRange(2, 25).Draw(t, "nops")
+	n := rapid.IntRange(2, deep(t, 25)).Draw(t, "nops")
 	issued := 0
 	for i := 0; i < n; i++ {
 		op := C10Op{IP: rapid.IntRange(0, nip-1).Draw(t, "op.ip"), Port: genPort(t, "op.port")}
